@@ -19,6 +19,8 @@ import (
 	"runtime"
 	"sort"
 	"sync"
+
+	"github.com/FollowTheProcess/spok/verifhook"
 )
 
 // ALWAYS is a constant string that is different to the string returned from
@@ -77,6 +79,7 @@ func (c Concurrent) Hash(files []string) (string, error) {
 	// nWorkers is min of NumCPU and len(files) so we don't start more workers than
 	// is necessary (no point kicking off 8 workers to do 3 files for example)
 	nWorkers := min(runtime.NumCPU(), len(files))
+	verifhook.At("pool.start", "workers", nWorkers, "files", len(files))
 	for range nWorkers {
 		wg.Add(1)
 		go worker(results, jobs, &wg)
@@ -89,6 +92,7 @@ func (c Concurrent) Hash(files []string) (string, error) {
 			jobs <- file
 		}
 		close(jobs)
+		verifhook.At("jobs.closed")
 	}()
 
 	// Wait for all the workers to finish in another goroutine so
@@ -96,6 +100,7 @@ func (c Concurrent) Hash(files []string) (string, error) {
 	go func(wg *sync.WaitGroup) {
 		wg.Wait()
 		close(results)
+		verifhook.At("results.closed")
 	}(&wg)
 
 	// Finally, range over the results channel until it gets closed
@@ -104,6 +109,7 @@ func (c Concurrent) Hash(files []string) (string, error) {
 	var accumulator [][]byte
 	var errors []error
 	for r := range results {
+		verifhook.At("main.recv", "file", r.file)
 		// Accumulating errors as no matter what we'll need to range over the results
 		// channel to drain it
 		if r.err != nil {
@@ -119,6 +125,7 @@ func (c Concurrent) Hash(files []string) (string, error) {
 	if len(errors) != 0 {
 		// Any error here is pretty much a dealbreaker so we just bail out
 		// on the first one
+		verifhook.At("main.return", "err", true)
 		return "", errors[0]
 	}
 
@@ -130,6 +137,7 @@ func (c Concurrent) Hash(files []string) (string, error) {
 	hash := sha256.New()
 	hash.Write(digest)
 	sum := hex.EncodeToString(hash.Sum(nil))
+	verifhook.At("main.return", "err", false)
 
 	return sum, nil
 }
@@ -140,7 +148,9 @@ func (c Concurrent) Hash(files []string) (string, error) {
 // sure all the workers have finished before closing the results channel.
 func worker(results chan<- result, files <-chan string, wg *sync.WaitGroup) {
 	defer wg.Done()
+	defer verifhook.At("worker.exit")
 	for file := range files {
+		verifhook.At("worker.recv", "file", file)
 		var res result
 		res.file = file
 		f, err := os.Open(file)
@@ -160,6 +170,7 @@ func worker(results chan<- result, files <-chan string, wg *sync.WaitGroup) {
 		}
 		res.hash = hash.Sum(nil)
 
+		verifhook.At("worker.send", "file", file)
 		results <- res
 	}
 }
